@@ -49,6 +49,14 @@ impl Expression for Block {
         // in scope can be accessed here, so it doesn't need to be checked at runtime.
         let (last, other) = self.inner.split_last().expect("at least one expression");
 
+        #[cfg(feature = "verif-hooks")]
+        for expr in other {
+            crate::verif_hooks::point("block:next-expression");
+            expr.resolve(ctx)?;
+        }
+        #[cfg(feature = "verif-hooks")]
+        crate::verif_hooks::point("block:next-expression");
+        #[cfg(not(feature = "verif-hooks"))]
         other
             .iter()
             .try_for_each(|expr| expr.resolve(ctx).map(|_| ()))?;
